@@ -1262,6 +1262,9 @@ func (e *Engine) convert(st *State, f *Frame, x *ssa.Convert, v Value) Value {
 			if c, ok := constInt(v.ln); ok && c == 0 {
 				return StrV{k: strLit}
 			}
+			if ao, ok := st.obj(v.obj).arr.(AOpaque); ok {
+				return ao.s
+			}
 			return StrV{k: strBytes, arr: st.obj(v.obj).arr, off: v.off, ln: v.ln, ub: v.ub}
 		}
 		if _, ok := to.(*types.Slice); ok {
